@@ -16,5 +16,5 @@ ANext == (AssignNew /\ Log) \/ (MutateAssignSame /\ Log) \/ (AssignSame /\ Log) 
          \/ ((\E b \in BOOLEAN : SetData(b)) /\ Log) \/ ((\E b \in BOOLEAN : SetText(b)) /\ Log)
 MCInit == Init /\ h = <<>>
 (* a behaviour = the statements (with what render_body returned) + the body finally sent *)
-Emit == (Len(h) = Depth) => PrintT(ToJson([ev |-> h, sent |-> Body]))
+Emit == (Len(h) = Depth) => PrintT(ToJson([rtype |-> rtype, ev |-> h, sent |-> Body]))
 ==================================================================================
